@@ -131,7 +131,9 @@ def run_check(prop, tier, seed, repo_root, write_ledger, t0):
         ids[oid] = dict(kind=e["kind"], canary=e["canary"], instances=e["n"], discharged=e["unsat"],
                         by=sorted(x for x in e["by"] if x), ms=e["ms"], where=sorted(e["where"]))
     loop_sigs = {rep.key: rep.loop_signature for rep in reports if getattr(rep, "loop_signature", None) is not None}
-    if write_ledger:
+    if write_ledger and undecided:
+        print("ledger NOT written: %d function(s) undecided (a ledger is the record of a fully explored tree)" % len(undecided))
+    elif write_ledger:
         led = {oid: dict(kind=v["kind"], by=v["by"]) for oid, v in sorted(ids.items())
                if not v["canary"] and v["discharged"] == v["instances"]}
         with open(ledger_path, "w") as f:
